@@ -1015,3 +1015,151 @@ pub mod session {
         .await
     }
 }
+
+/// `http_forwarded_stream::into_forwarded` on a stream made of mirror objects, relayed to a
+/// scripted origin by the real `DuplexPipe`
+pub mod forwarded {
+    use super::pipe::{sink_into_real, source_into_real, VSink, VSource};
+    use crate::http_codec::{self, RequestHeaders, ResponseHeaders};
+    use crate::{log_utils, pipe};
+    use std::io;
+    use std::net::IpAddr;
+    use std::time::Duration;
+
+    pub struct Request {
+        pub method: String,
+        pub uri: String,
+        /// 1 = HTTP/1.1, 2 = HTTP/2, 3 = HTTP/3
+        pub version: u8,
+        pub headers: Vec<(String, Vec<u8>)>,
+    }
+
+    pub struct Response {
+        pub status: u16,
+        pub headers: Vec<(String, Vec<u8>)>,
+    }
+
+    /// Mirror of `http_codec::PendingRespond`
+    pub trait VRespond: Send {
+        fn send_intermediate_response(&self, response: Response) -> io::Result<()>;
+        fn send_response(self: Box<Self>, response: Response, eof: bool) -> io::Result<Box<dyn VSink>>;
+    }
+
+    struct Stream {
+        request: RequestHeaders,
+        body: Box<dyn VSource>,
+        respond: Box<dyn VRespond>,
+    }
+    struct Pending {
+        request: RequestHeaders,
+        body: Box<dyn VSource>,
+    }
+    struct Respond(Box<dyn VRespond>);
+    struct Responded(Box<dyn VSink>);
+
+    fn view(r: ResponseHeaders) -> Response {
+        Response {
+            status: r.status.as_u16(),
+            headers: r
+                .headers
+                .iter()
+                .map(|(n, v)| (n.as_str().to_string(), v.as_bytes().to_vec()))
+                .collect(),
+        }
+    }
+
+    impl http_codec::Stream for Stream {
+        fn id(&self) -> log_utils::IdChain<u64> {
+            log_utils::IdChain::empty()
+        }
+        fn request(&self) -> &dyn http_codec::PendingRequest {
+            unreachable!()
+        }
+        fn split(self: Box<Self>) -> (Box<dyn http_codec::PendingRequest>, Box<dyn http_codec::PendingRespond>) {
+            (
+                Box::new(Pending {
+                    request: self.request,
+                    body: self.body,
+                }),
+                Box::new(Respond(self.respond)),
+            )
+        }
+    }
+
+    impl http_codec::PendingRequest for Pending {
+        fn id(&self) -> log_utils::IdChain<u64> {
+            log_utils::IdChain::empty()
+        }
+        fn request(&self) -> &RequestHeaders {
+            &self.request
+        }
+        fn client_address(&self) -> io::Result<IpAddr> {
+            Ok("198.51.100.7".parse().unwrap())
+        }
+        fn finalize(self: Box<Self>) -> Box<dyn pipe::Source> {
+            source_into_real(self.body)
+        }
+    }
+
+    impl http_codec::PendingRespond for Respond {
+        fn id(&self) -> log_utils::IdChain<u64> {
+            log_utils::IdChain::empty()
+        }
+        fn send_intermediate_response(&self, r: ResponseHeaders) -> io::Result<()> {
+            self.0.send_intermediate_response(view(r))
+        }
+        fn send_response(
+            self: Box<Self>,
+            response: ResponseHeaders,
+            eof: bool,
+        ) -> io::Result<Box<dyn http_codec::RespondedStreamSink>> {
+            Ok(Box::new(Responded(self.0.send_response(view(response), eof)?)))
+        }
+    }
+
+    impl http_codec::RespondedStreamSink for Responded {
+        fn into_pipe_sink(self: Box<Self>) -> Box<dyn pipe::Sink> {
+            sink_into_real(self.0)
+        }
+        fn into_datagram_sink(self: Box<Self>) -> Box<dyn http_codec::DroppingSink> {
+            unreachable!()
+        }
+    }
+
+    /// Builds the forwarded stream for `request` and relays it to `origin` (its source yields the
+    /// origin's bytes, its sink receives the serialized request) until the exchange ends
+    pub async fn exchange(
+        request: Request,
+        body: Box<dyn VSource>,
+        respond: Box<dyn VRespond>,
+        origin: (Box<dyn VSource>, Box<dyn VSink>),
+        timeout: Duration,
+    ) -> Result<(), String> {
+        let version = match request.version {
+            1 => http::Version::HTTP_11,
+            2 => http::Version::HTTP_2,
+            _ => http::Version::HTTP_3,
+        };
+        let mut builder = http::Request::builder()
+            .method(request.method.as_str())
+            .uri(request.uri.as_str())
+            .version(version);
+        for (n, v) in &request.headers {
+            builder = builder.header(n.as_str(), v.as_slice());
+        }
+        let parts = builder.body(()).map_err(|e| format!("request: {}", e))?.into_parts().0;
+        let stream = Box::new(Stream {
+            request: parts,
+            body,
+            respond,
+        });
+        let (source, sink) =
+            crate::http_forwarded_stream::into_forwarded(stream).map_err(|e| format!("into_forwarded: {}", e))?;
+        let mut pipe = pipe::DuplexPipe::new(
+            (pipe::SimplexDirection::Outgoing, source, sink_into_real(origin.1)),
+            (pipe::SimplexDirection::Incoming, source_into_real(origin.0), sink),
+            |_, _| (),
+        );
+        pipe.exchange(timeout).await.map_err(|e| format!("{:?}: {}", e.kind(), e))
+    }
+}
